@@ -7,7 +7,7 @@ From Knut Require Import Model.Str Model.Dec Model.Date Model.Account Model.Ledg
 From Knut Require Import Spec.PrintSpec.
 From Knut Require Import Proofs.DecEqProofs Proofs.DecNormalForm Proofs.OrderProofs Proofs.OrderCmd Proofs.CheckQuant
      Proofs.PrintProofs Proofs.PrintRegroup Proofs.PrintRequant Proofs.PrintNormal Proofs.QuantSim Proofs.QuantReport Proofs.QuantStages
-     Proofs.QuantValue Proofs.QuantText Proofs.PrintText.
+     Proofs.QuantValue Proofs.QuantText Proofs.PrintText Proofs.PrintReportsDirect.
 Import ListNotations.
 Open Scope bool_scope.
 Open Scope Z_scope.
@@ -90,32 +90,32 @@ Qed.
 
 (* C09_same_reports *)
 Theorem print_same_reports l ss text :
-  lex_ok ss -> no_conflicting_prices ss -> printed (print_cmd l) ss text ->
+  lex_ok ss -> printed (print_cmd l) ss text ->
   exists ss', reparse text = MOk ss' /\
     (forall cfg, ceq eq (balance_csv cfg ss') (balance_csv cfg ss)) /\
     (forall cfg tc, ceq eq (balance_text cfg tc ss') (balance_text cfg tc ss)).
 Proof.
-  intros HL Hn Hpr. destruct (printed_text l ss text HL Hpr) as (b & Hl & _ & Hr).
+  intros HL Hpr. destruct (printed_text l ss text HL Hpr) as (b & Hl & _ & Hr).
   exists (reparsed_dirs (b_days b)). split; [exact Hr|].
-  destruct (reports_reparsed ss b Hl) as (R1 & R2). destruct (reports_printed_dirs ss b (proj1 HL) Hn Hl) as (P1 & P2).
+  destruct (reports_reparsed ss b Hl) as (R1 & R2). destruct (reports_printed_dirs_direct ss b (proj1 HL) Hl) as (P1 & P2).
   split; [intros cfg|intros cfg tc].
-  - eapply ceq_eq_trans; [apply ceq_eq_sym, R1|apply P1].
-  - eapply ceq_eq_trans; [apply ceq_eq_sym, R2|apply P2].
+  - eapply ceq_eq_trans; [apply ceq_eq_sym, R1|apply ceq_eq_sym, P1].
+  - eapply ceq_eq_trans; [apply ceq_eq_sym, R2|apply ceq_eq_sym, P2].
 Qed.
 
 (* all of C09 for one and the same re-read journal *)
 Theorem print_roundtrip l ss text :
-  lex_ok ss -> no_conflicting_prices ss -> printed (print_cmd l) ss text ->
+  lex_ok ss -> printed (print_cmd l) ss text ->
   exists ss', reparse text = MOk ss' /\ accepted l ss' /\ printed (print_cmd l) ss' text /\
     (forall cfg, ceq eq (balance_csv cfg ss') (balance_csv cfg ss)) /\
     (forall cfg tc, ceq eq (balance_text cfg tc ss') (balance_text cfg tc ss)).
 Proof.
-  intros HL Hn Hpr. destruct (printed_text l ss text HL Hpr) as (b & Hl & _ & Hr).
+  intros HL Hpr. destruct (printed_text l ss text HL Hpr) as (b & Hl & _ & Hr).
   exists (reparsed_dirs (b_days b)). split; [exact Hr|].
   split; [apply (accepted_reparsed l ss b (proj1 HL) Hl), (printed_fixed_accepted l ss text Hpr)|].
   split; [exact (print_reparsed_dirs l ss b text (proj1 HL) Hl Hpr)|].
-  destruct (reports_reparsed ss b Hl) as (R1 & R2). destruct (reports_printed_dirs ss b (proj1 HL) Hn Hl) as (P1 & P2).
+  destruct (reports_reparsed ss b Hl) as (R1 & R2). destruct (reports_printed_dirs_direct ss b (proj1 HL) Hl) as (P1 & P2).
   split; [intros cfg|intros cfg tc].
-  - eapply ceq_eq_trans; [apply ceq_eq_sym, R1|apply P1].
-  - eapply ceq_eq_trans; [apply ceq_eq_sym, R2|apply P2].
+  - eapply ceq_eq_trans; [apply ceq_eq_sym, R1|apply ceq_eq_sym, P1].
+  - eapply ceq_eq_trans; [apply ceq_eq_sym, R2|apply ceq_eq_sym, P2].
 Qed.
